@@ -3,7 +3,7 @@
 Service description (JSON): {'type','name','port','server','addrs':[text],'props':hex TXT bytes,'host_ttl','other_ttl',
                              'weight','priority'}
 Record identity tuples (all names lower-cased; NSEC owner ignored, its TTL is part of the tuple):
-  ('PTR', owner, alias) ('SRV', name, prio, weight, port, server) ('TXT', name, hex) ('A'|'AAAA', host, hex) ('NSEC', (types), ttl)
+  ('PTR', owner, alias) ('SRV', name, prio, weight, port, server) ('TXT', name, hex) ('A'|'AAAA', host, hex) ('NSEC', (types), ttl, owner)
 """
 from __future__ import annotations
 
@@ -50,6 +50,10 @@ class Svc:
                 out.append(('A' if t == T_A else 'AAAA', self.server.lower(), a.hex()))
         return out
 
+    def nsec(self) -> Tuple:
+        """NSEC identity; the owner (4th element) is what the library uses (the instance name). C03 ignores it."""
+        return ('NSEC', self.missing(), self.host_ttl, self.name.lower())
+
     def families(self) -> Set[int]:
         return {T_A if len(a) == 4 else T_AAAA for a in self.addrs}
 
@@ -62,7 +66,7 @@ class Svc:
         for a in self.addresses():
             out[a] = self.host_ttl
         if self.missing():
-            out[('NSEC', self.missing(), self.host_ttl)] = self.host_ttl
+            out[self.nsec()] = self.host_ttl
         return out
 
 
@@ -113,7 +117,7 @@ class ResponderModel:
                     for a in s.addresses(qtype):
                         offer(a, s.host_ttl, s)
                     if qtype not in s.families():
-                        ident = ('NSEC', s.missing(), s.host_ttl)
+                        ident = s.nsec()
                         if len(fams) > 1:
                             dont_care.add(ident)   # services on one host disagree on families: whose view wins is unspecified
                         else:
@@ -122,7 +126,7 @@ class ResponderModel:
                                 producers.append(s)
                 if len(fams) > 1:
                     for s in on_host:
-                        dont_care.add(('NSEC', s.missing(), s.host_ttl))
+                        dont_care.add(s.nsec())
             if qtype == T_ANY:
                 # ANY on a host name is outside the completeness claim
                 for s in self.services.values():
@@ -137,6 +141,7 @@ class ResponderModel:
                         offer(s.srv(), s.host_ttl, s)
                     if qtype in (T_TXT, T_ANY):
                         offer(s.txt(), s.other_ttl, s)
+        dont_care -= set(exp)      # explicitly asked records stay required even if another question makes them optional
         allowed: Dict[Tuple, int] = {}
         for s in self.services.values():
             # additionals may come from any service that produced an answer; address questions involve every
@@ -144,6 +149,10 @@ class ResponderModel:
             if s in producers:
                 allowed.update(s.records_with_ttl())
         return exp, dont_care, allowed, producers
+
+
+def strip_nsec_owner(ident: Optional[Tuple]) -> Optional[Tuple]:
+    return ident[:3] if ident is not None and ident[0] == 'NSEC' else ident
 
 
 def ident_of_wire_rr(r: Dict[str, Any]) -> Optional[Tuple]:
@@ -162,7 +171,7 @@ def ident_of_wire_rr(r: Dict[str, Any]) -> Optional[Tuple]:
     if t == T_AAAA:
         return ('AAAA', name, rd['addr'].hex())
     if t == T_NSEC:
-        return ('NSEC', tuple(sorted(rd['types'])), r['ttl'])
+        return ('NSEC', tuple(sorted(rd['types'])), r['ttl'], name)
     return None
 
 
